@@ -746,7 +746,11 @@ func (ex *Exec) globalNode(g *ssa.Global) Node {
 	if strings.HasSuffix(g.Name(), "$guard") {
 		return n
 	}
-	panic(unsupported{"read of uninitialised dependency global " + full})
+	where := ""
+	if len(ex.stack) > 0 {
+		where = " in " + ex.stack[len(ex.stack)-1].String()
+	}
+	panic(unsupported{"read of uninitialised dependency global " + full + where})
 }
 
 // sentinel returns the opaque error value standing for a named package-level error variable.
